@@ -18,6 +18,7 @@ import (
 	"crypto/sha256"
 	"crypto/sha512"
 	"crypto/x509"
+	"database/sql"
 	"encoding/gob"
 	"encoding/hex"
 	"fmt"
@@ -27,6 +28,7 @@ import (
 	"net/http"
 	"net/http/httptest"
 	"net/url"
+	"os"
 	"path/filepath"
 	"reflect"
 	"sort"
@@ -293,6 +295,8 @@ type c15Hist struct {
 	// the user profiles the primary held at the last copy that reported success (a direct copy or a turn
 	// of the background copier); empty before the first
 	ghost map[string][]byte
+	// number of a stored profile by its bytes (the large history asks for the same two thousands of times)
+	idxMemo map[[32]byte]int
 }
 
 func (h *c15Hist) record(op, out string) {
@@ -310,6 +314,19 @@ func (h *c15Hist) tick() {
 }
 
 func (h *c15Hist) profIdx(b []byte) int {
+	key := sha256.Sum256(b)
+	if i, ok := h.idxMemo[key]; ok {
+		return i
+	}
+	i := h.profIdxOf(b)
+	if h.idxMemo == nil {
+		h.idxMemo = map[[32]byte]int{}
+	}
+	h.idxMemo[key] = i
+	return i
+}
+
+func (h *c15Hist) profIdxOf(b []byte) int {
 	c, err := c15CanonBytes(b)
 	if err != nil {
 		return 9998
@@ -340,6 +357,11 @@ func c15UserNo(u string) int {
 	for i, n := range c15Users {
 		if n == u && i > 0 {
 			return i
+		}
+	}
+	if strings.HasPrefix(u, "vol") { // the users of the large history (below)
+		if n, err := strconv.Atoi(u[3:]); err == nil && n >= 0 {
+			return c15VolUserBase + n
 		}
 	}
 	return 99
@@ -515,14 +537,16 @@ func (h *c15Hist) getS(u, ty int) {
 	}
 }
 
-func (h *c15Hist) upsert(u, ty, d int, exp int64) {
+func (h *c15Hist) upsert(u, ty, d int, exp int64) { h.upsertNamed(c15Users[u], u, ty, d, exp) }
+
+func (h *c15Hist) upsertNamed(name string, u, ty, d int, exp int64) {
 	h.tick()
-	err := h.e.st.UpsertSigned(c15Users[u], ty, exp, "payload-"+strconv.Itoa(d))
+	err := h.e.st.UpsertSigned(name, ty, exp, "payload-"+strconv.Itoa(d))
 	h.record(fmt.Sprintf("(Upsert %d%%N %d%%N %d%%N (%d)%%Z)", u, ty, d, exp), errOut(err))
 	h.e.res.bump("op:upsert")
 	if err == nil {
 		var jws string
-		if e2 := h.e.admP.QueryRow("SELECT jws_data FROM expiring_signed_user_data WHERE username=? AND type=?", c15Users[u], ty).Scan(&jws); e2 == nil {
+		if e2 := h.e.admP.QueryRow("SELECT jws_data FROM expiring_signed_user_data WHERE username=? AND type=?", name, ty).Scan(&jws); e2 == nil {
 			h.jwsData[jws] = d
 		}
 	}
@@ -1112,6 +1136,10 @@ func c15OutageOracle(e *c15Env, route string, m int, status int, bp, ap, bc, ac 
 func TestVerif_C15(t *testing.T) {
 	res := newVerifResult("part 1: random histories (<= 9 ops of save / delete user / upsert / delete signed / sync / cleanup / load / get-signed / mode switch over 3 users, 2 record types, 6 rich profiles, expiries {-2h,-15m,+15m,+1d,+96h}) on a real SQLite pair; every synchronisation of the first histories repeated with a fault at statement k for every k (wrapping database/sql driver), the others with one random fault; an expiry-boundary scenario on the real clock; the Coq model runs the same histories. part 2: gob round trip of random rich profiles through primary and cache. part 3: 20 driven handler requests x {up, slow, dead} with stale cache (model handler classes) and every route of the regenerated mux x {GET, POST} x {user, admin} x {slow, dead}; non-trivial = stores not empty / request reached a handler; distinct by (op shape, outcome)")
 	e := c15Setup(t, res)
+	// what "a destination transaction is all or nothing" needs of the cache connections that initDB opened
+	c15WriteConnConsts(e)
+	c15JournalOracle(e, 0, "start-up")
+	probedAtStart := len(e.connProbes)
 	rng := verifRand()
 	mat := c15NewMaterial(e)
 	pool := mat.pool()
@@ -1392,6 +1420,16 @@ func TestVerif_C15(t *testing.T) {
 		res.Extra["panics"] = e.env.panics
 	}
 
+	// ---------------- volume: a cache larger than SQLite's page cache, faults at late statements of the copy
+	// (last: a tree that leaves the cache file damaged here must not take the other parts with it)
+	runHistory(-2, c15LargeHistory)
+	res.Extra["fault_points"] = totalFaults
+	// the connections of every restart were probed too
+	c15JournalOracle(e, probedAtStart, "after a restart")
+	c15WriteConnConsts(e)
+	res.Extra["cache_connections_probed"] = len(e.connProbes)
+	res.Extra["connection_settings_carried"] = e.connCarried
+
 	// ---------------- case files
 	var sb strings.Builder
 	sb.WriteString(coqCaseHeader)
@@ -1422,4 +1460,420 @@ func minInt(a, b int) int {
 		return a
 	}
 	return b
+}
+
+// ================================================================ journal of the cache connection, volume
+// C15 — the precondition of "a destination transaction is all or nothing", and volume.
+//
+//  (1) What copyDBIntoSQLite relies on when a statement fails is tx.Rollback() of its one destination
+//      transaction.  SQLite gives the previous content back only on a connection that keeps a rollback
+//      journal in a file or a write-ahead log.  The per-connection settings of the handles the REAL
+//      initDB opened are asked (storeenv.go probeConnections: PRAGMA journal_mode, synchronous, ... on
+//      several connections of state.cacheDB and state.db held at the same time), judged here
+//      (C15:cache-not-transactional:<pragma>), written to gen/ConstsC15.v for coq/obl/Obl_C15.v, and
+//      carried over to the wrapping driver's connections so that the fault sweep runs with them.
+//  (2) Whether a roll-back works without a journal depends on how much the transaction wrote: while
+//      it fits SQLite's page cache nothing has reached the file.  One history per run therefore works
+//      on a cache that is larger than the page cache of the probed connection, with faults at LATE
+//      statements of the copy (C15:atomic:mixture@<call>/<kind>:large).
+
+var c15TransactionalJournal = map[string]bool{"delete": true, "truncate": true, "persist": true, "wal": true}
+
+func c15CoqIdent(s string) string {
+	var sb strings.Builder
+	for _, r := range s {
+		if (r >= 'a' && r <= 'z') || (r >= '0' && r <= '9') || r == '_' || r == '-' {
+			sb.WriteRune(r)
+		}
+	}
+	return sb.String()
+}
+
+// gen/ConstsC15.v: (handle, connection, journal_mode, synchronous) of every probed connection
+func c15WriteConnConsts(e *c15Env) {
+	var rows []string
+	for _, p := range e.connProbes {
+		sy, err := strconv.Atoi(p.Settings["synchronous"])
+		if err != nil || sy < 0 {
+			sy = 99
+		}
+		rows = append(rows, fmt.Sprintf("(\"%s\", %d%%N, \"%s\", %d%%N)", c15CoqIdent(p.Handle), p.Conn, c15CoqIdent(p.Settings["journal_mode"]), sy))
+	}
+	src := "(* generated by the C15 harness: PRAGMA journal_mode / PRAGMA synchronous as answered by connections of the\n" +
+		"   handles that the initDB of the tree under test opened (cache = state.cacheDB, primary = state.db);\n" +
+		"   (handle, number of the connection, journal_mode, synchronous) *)\n" +
+		"From Coq Require Import String List NArith.\nImport ListNotations.\nOpen Scope string_scope.\n" +
+		"Definition c15_conn_probes : list (string * N * string * N) := [\n  " + strings.Join(rows, ";\n  ") + "].\n"
+	dir := filepath.Join(verifOut(), "gen")
+	os.MkdirAll(dir, 0755)
+	if err := ioutil.WriteFile(filepath.Join(dir, "ConstsC15.v"), []byte(src), 0644); err != nil {
+		e.t.Fatal(err)
+	}
+}
+
+// The oracle on the probed settings of the cache connections (from index `from` of e.connProbes on).
+func c15JournalOracle(e *c15Env, from int, when string) {
+	seen := map[string]bool{}
+	for _, p := range e.connProbes[from:] {
+		if p.Handle != "cache" {
+			continue
+		}
+		jm, sy := p.Settings["journal_mode"], p.Settings["synchronous"]
+		e.res.eval("conn-probe|"+p.Handle+"|"+jm+"|"+sy+"|"+p.Settings["cache_size"]+"|"+p.Settings["locking_mode"], true)
+		e.res.bump("cache-connection:journal_mode=" + jm + ",synchronous=" + sy)
+		kase := map[string]interface{}{"handle": "state.cacheDB", "when": when, "connection": p.Conn, "settings": p.Settings,
+			"probe": "PRAGMA <name> on connections of the handle initDB opened, held at the same time"}
+		if !c15TransactionalJournal[jm] && !seen["journal_mode"] {
+			seen["journal_mode"] = true
+			kase["pragma"], kase["value"] = "journal_mode", jm
+			e.res.hit(verifHit{Key: "C15:cache-not-transactional:journal_mode",
+				Oracle: "the cache connection keeps a rollback journal in a file or a write-ahead log (journal_mode delete | truncate | persist | wal): what tx.Rollback() of a failed synchronisation, and the recovery after a killed process, restore the previous content from",
+				What:   fmt.Sprintf("connection %d of state.cacheDB answers PRAGMA journal_mode = %q (synchronous = %s): copyDBIntoSQLite relies on tx.Rollback() of its destination transaction, which SQLite leaves undefined without a journal (memory: lost with the process) — a synchronisation that fails after the transaction outgrew the page cache (cache_size %s) leaves a mixture", p.Conn, jm, sy, p.Settings["cache_size"]),
+				Case:   kase, Observed: map[string]interface{}{"journal_mode": jm, "synchronous": sy}})
+		}
+		if sy == "0" && !seen["synchronous"] {
+			seen["synchronous"] = true
+			kase2 := map[string]interface{}{}
+			for k, v := range kase {
+				kase2[k] = v
+			}
+			kase2["pragma"], kase2["value"] = "synchronous", sy
+			e.res.hit(verifHit{Key: "C15:cache-not-transactional:synchronous",
+				Oracle: "the cache connection waits for its journal to reach the disk before it overwrites database pages (synchronous >= normal): a synchronisation interrupted by the machine going down leaves the previous or the new content",
+				What:   fmt.Sprintf("connection %d of state.cacheDB answers PRAGMA synchronous = 0 (off; journal_mode = %s): SQLite hands the journal and the database pages to the operating system without ordering them; a power loss or kernel crash during a synchronisation can leave the cache file a mixture or malformed (a failed statement or a killed process is not affected by this setting)", p.Conn, jm),
+				Case:   kase2, Observed: map[string]interface{}{"journal_mode": jm, "synchronous": sy}})
+		}
+	}
+}
+
+// bytes of page cache of the probed cache connections (the largest): cache_size < 0 is KiB, > 0 pages
+func c15PageCacheBytes(e *c15Env) int64 {
+	var max int64
+	for _, p := range e.connProbes {
+		if p.Handle != "cache" {
+			continue
+		}
+		cs, err1 := strconv.ParseInt(p.Settings["cache_size"], 10, 64)
+		ps, err2 := strconv.ParseInt(p.Settings["page_size"], 10, 64)
+		if err1 != nil {
+			cs = -2000
+		}
+		if err2 != nil || ps <= 0 {
+			ps = 4096
+		}
+		b := cs * ps
+		if cs < 0 {
+			b = -cs * 1024
+		}
+		if b > max {
+			max = b
+		}
+	}
+	if max == 0 {
+		max = 2000 * 1024
+	}
+	return max
+}
+
+// ---------------------------------------------------------------- the large history
+
+const c15VolUserBase = 1000
+
+func c15VolUser(i int) string { return fmt.Sprintf("vol%05d", i) }
+
+// a profile of about `size` bytes once encoded
+func c15BigProfile(marker string, size int, fill byte) *userProfile {
+	p := c15NewProfile()
+	p.DisplayName = marker
+	p.Username = marker
+	p.UserHasRegistered2ndFactor = true
+	p.TOTPAuthData[1790003000] = &totpAuthData{Enabled: true, CreatedAt: time.Unix(1790003000, 0), Name: marker,
+		EncryptedSecret: [][]byte{bytes.Repeat([]byte{fill}, size)}}
+	return p
+}
+
+func c15Encode(p *userProfile) []byte {
+	var buf bytes.Buffer
+	if err := gob.NewEncoder(&buf).Encode(p); err != nil {
+		panic(err)
+	}
+	return buf.Bytes()
+}
+
+// the content of a database file through a connection of its own that is opened for this one read
+func c15ReadFresh(file string) (c15Snap, string, error) {
+	db, err := sql.Open("sqlite3", file)
+	if err != nil {
+		return c15Snap{}, "", err
+	}
+	defer db.Close()
+	db.SetMaxOpenConns(1)
+	s, err := c15Read(db)
+	if err != nil {
+		return s, "", err
+	}
+	var integrity string
+	rows, err := db.Query("PRAGMA integrity_check(4)")
+	if err != nil {
+		return s, "", err
+	}
+	defer rows.Close()
+	var lines []string
+	for rows.Next() {
+		var l string
+		if err := rows.Scan(&l); err != nil {
+			return s, "", err
+		}
+		lines = append(lines, l)
+	}
+	if err := rows.Err(); err != nil {
+		return s, "", err
+	}
+	integrity = strings.Join(lines, "; ")
+	return s, integrity, nil
+}
+
+func c15FileBytes(file string) int64 {
+	var n int64
+	for _, suffix := range []string{"", "-wal"} {
+		if fi, err := os.Stat(file + suffix); err == nil {
+			n += fi.Size()
+		}
+	}
+	return n
+}
+
+type c15LargePoint struct {
+	name     string
+	k        int
+	kind     int
+	standing bool
+}
+
+// Statement indices of the copy for nP profiles and nS live signed rows (Model/Storage.v sync_script):
+// 0,1 source queries; 2 Begin; 3,4 DELETEs; 5 Prepare; then fetch+insert per profile, the final fetch,
+// Prepare, fetch+insert per signed row, the final fetch, COMMIT.
+func c15LargePoints(nP, nS int, thorough bool) []c15LargePoint {
+	total := 10 + 2*nP + 2*nS
+	pts := []c15LargePoint{
+		{"profile-insert-2/3", 6 + 2*(nP*2/3) + 1, verifFaultGeneric, false},
+		{"last-profile-insert", 6 + 2*(nP-1) + 1, verifFaultBusy, false},
+		{"profile-cursor-end", 6 + 2*nP, verifFaultGeneric, false},
+		{"signed-prepare", 7 + 2*nP, verifFaultLocked, false},
+		{"first-signed-fetch", 8 + 2*nP, verifFaultDeadline, false},
+		{"first-signed-insert", 9 + 2*nP, verifFaultGeneric, true},
+		{"last-signed-insert", 8 + 2*nP + 2*(nS-1) + 1, verifFaultBadConn, true},
+		{"commit", total - 1, verifFaultBusy, false},
+		{"commit", total - 1, verifFaultGeneric, false},
+	}
+	if thorough {
+		for j := 1; j <= 24; j++ {
+			pts = append(pts, c15LargePoint{fmt.Sprintf("profile-insert-%d/25", j), 6 + 2*(nP*j/25) + 1, j % verifNFaultKinds, j%3 == 0})
+			pts = append(pts, c15LargePoint{fmt.Sprintf("profile-fetch-%d/25", j), 6 + 2*(nP*j/25), (j + 2) % verifNFaultKinds, j%4 == 0})
+		}
+		for j := 0; j < nS; j += 3 {
+			pts = append(pts, c15LargePoint{"signed-insert", 9 + 2*nP + 2*j, (j + 1) % verifNFaultKinds, false})
+		}
+	}
+	return pts
+}
+
+// one copy on the large pair with statement k failing; false: the cache file is damaged or unreadable
+func (h *c15Hist) syncLarge(pt c15LargePoint) bool {
+	e := h.e
+	e.settle()
+	h.tick()
+	before, _, berr := c15ReadFresh(e.cacheFile)
+	if berr != nil {
+		return false
+	}
+	prim := e.snapP()
+	verifFault.armKind(pt.k, pt.kind, pt.standing)
+	t0 := time.Now()
+	err := copyDBIntoSQLite(e.st.db, e.st.cacheDB, "sqlite")
+	count, fired, kinds := verifFault.disarm()
+	took := time.Since(t0)
+	after, integrity, rerr := c15ReadFresh(e.cacheFile)
+	op := "(Sync None)"
+	if pt.k >= 0 {
+		op = fmt.Sprintf("(Sync (Some (F %d%%nat %s %s)))", pt.k, verifFaultCoq[pt.kind], coqBool(!pt.standing))
+	}
+	h.ops = append(h.ops, op)
+	h.outs = append(h.outs, fmt.Sprintf("(OSync %s)", coqBool(err == nil)))
+	h.human = append(h.human, fmt.Sprintf("%s[%s]->(OSync %s)", op, pt.name, coqBool(err == nil)))
+	failing := ""
+	if fired && pt.k >= 0 && pt.k < len(kinds) {
+		failing = kinds[pt.k]
+		if pt.kind != verifFaultGeneric {
+			failing += "/" + verifFaultNames[pt.kind]
+		}
+	}
+	h.syncs++
+	if fired {
+		h.faults++
+		e.res.bump("large-fault@" + failing)
+	}
+	want := c15Mirror(prim, h.now)
+	kase := map[string]interface{}{"history": h.human, "fault_at": pt.k, "fault_point": pt.name, "fault_kind": verifFaultNames[pt.kind], "fault_standing": pt.standing,
+		"statements": count, "failing_statement": failing, "cache_file_bytes": c15FileBytes(e.cacheFile), "page_cache_bytes": c15PageCacheBytes(e),
+		"cache_connection_settings": e.connCarried["cache"]}
+	obs := map[string]interface{}{"error": fmt.Sprint(err), "primary_users": len(prim.profiles), "primary_signed": len(prim.signed),
+		"cache_users_before": len(before.profiles), "cache_signed_before": len(before.signed), "took_ms": took.Milliseconds()}
+	e.res.eval(fmt.Sprintf("sync-large|%s|%v|%s", pt.name, err == nil, failing), len(before.profiles) > 0 && len(prim.profiles) > 0)
+	if rerr != nil || integrity != "ok" {
+		// a file that SQLite itself calls damaged is neither the old nor the new content
+		obs["read_error"], obs["integrity_check"] = fmt.Sprint(rerr), integrity
+		key := "C15:atomic:mixture@" + failing + ":large"
+		if err == nil {
+			key = "C15:mirror:cache-file-damaged:large"
+		}
+		e.res.hit(verifHit{Key: key, Oracle: "an interrupted synchronisation leaves the cache equal to its previous or its new content (a database file that SQLite reports as damaged is neither)",
+			What: fmt.Sprintf("large cache (%d users, file %d bytes, page cache %d bytes): fault at statement %d/%d (%s, %s), copyDBIntoSQLite returned %v; reading the cache file afterwards: error %v, integrity_check: %q",
+				len(before.profiles), c15FileBytes(e.cacheFile), c15PageCacheBytes(e), pt.k, count, pt.name, failing, err, rerr, integrity),
+			Case: kase, Observed: obs})
+		return false // nothing more can be learnt from a damaged file
+	}
+	// both stores go to the model's case file — in the thorough tier (three times the users, 130 attempts) only
+	// for the un-faulted copies, every 8th attempt and every attempt that did not simply keep the old content
+	if !verifThorough() || pt.k < 0 || h.syncs%8 == 0 || err == nil || !after.equal(before) {
+		h.snaps = append(h.snaps, fmt.Sprintf("(%d%%nat, %s, %s)", len(h.ops)-1, h.coqDB(prim), h.coqDB(after)))
+	}
+	obs["cache_users"], obs["cache_signed"] = len(after.profiles), len(after.signed)
+	if !prim.equal(e.snapP()) {
+		e.res.hit(verifHit{Key: "C15:sync:primary-changed", Oracle: "a synchronisation never changes the primary", What: "primary differs after copyDBIntoSQLite (large history)", Case: kase, Observed: obs})
+	}
+	switch {
+	case err == nil:
+		if d := c15MirrorDiff(after, want, prim); d != "" {
+			e.res.hit(verifHit{Key: "C15:mirror:" + d + ":large", Oracle: "after a completed synchronisation the cache holds exactly the primary's users and unexpired signed records",
+				What: fmt.Sprintf("large cache: copyDBIntoSQLite returned nil but the cache is not the mirror of the primary: %s (primary users=%d signed=%d, cache users=%d signed=%d)", d, len(prim.profiles), len(prim.signed), len(after.profiles), len(after.signed)),
+				Case: kase, Observed: obs})
+		}
+		if fired && !(pt.kind == verifFaultBadConn && !pt.standing) {
+			e.res.hit(verifHit{Key: "C15:sync:error-ignored@" + failing + ":large", Oracle: "a failed statement makes the synchronisation fail",
+				What: fmt.Sprintf("statement %d (%s) failed and copyDBIntoSQLite returned nil", pt.k, failing), Case: kase, Observed: obs})
+		}
+	case !after.equal(before) && !after.equal(want):
+		e.res.hit(verifHit{Key: "C15:atomic:mixture@" + failing + ":large", Oracle: "an interrupted synchronisation leaves the cache equal to its previous or its new content",
+			What: fmt.Sprintf("large cache (%d users, file %d bytes, page cache %d bytes): fault at statement %d/%d (%s, %s): the cache is neither the old content nor the mirror of the primary (%s; users before %d, after %d, primary %d)",
+				len(before.profiles), c15FileBytes(e.cacheFile), c15PageCacheBytes(e), pt.k, count, pt.name, failing, c15MirrorDiff(after, want, prim), len(before.profiles), len(after.profiles), len(prim.profiles)),
+			Case: kase, Observed: obs})
+	case !after.equal(before):
+		e.res.hit(verifHit{Key: "C15:sync:completed-reported-failed@" + failing + ":large", Oracle: "a synchronisation that reports failure leaves the previous content",
+			What: fmt.Sprintf("large cache: fault at statement %d/%d (%s): copyDBIntoSQLite returned %v but the cache holds the new content", pt.k, count, failing, err), Case: kase, Observed: obs})
+	}
+	return true
+}
+
+// bulk change of the primary in one transaction of the harness's own connection (the statement of
+// SaveUserProfile), recorded as the Save ops it stands for
+func (h *c15Hist) bulkSave(from, to int, blob []byte, poolNo int) {
+	tx, err := h.e.admP.Begin()
+	if err != nil {
+		h.e.t.Fatalf("bulk save: %v", err)
+	}
+	stmt, err := tx.Prepare(saveUserProfileStmt["sqlite"])
+	if err != nil {
+		h.e.t.Fatalf("bulk save: %v", err)
+	}
+	for i := from; i < to; i++ {
+		if _, err := stmt.Exec(c15VolUser(i), blob); err != nil {
+			h.e.t.Fatalf("bulk save: %v", err)
+		}
+		h.ops = append(h.ops, fmt.Sprintf("(Save %d%%N %d%%N)", c15VolUserBase+i, poolNo))
+		h.outs = append(h.outs, "OOk")
+	}
+	stmt.Close()
+	if err := tx.Commit(); err != nil {
+		h.e.t.Fatalf("bulk save: %v", err)
+	}
+	h.human = append(h.human, fmt.Sprintf("(Save %d..%d profile %d, one transaction)->OOk", c15VolUserBase+from, c15VolUserBase+to-1, poolNo))
+	h.e.res.bump("op:bulk-save")
+}
+
+// The history: nU users with ~4 KB profiles and nS signed records, a completed copy (the cache file is now
+// larger than the page cache of the cache connections), every profile changed / some users deleted and
+// added / signed records changed in the primary, then the copy with faults at late statements — the
+// previous content must stay each time —, a completed copy, and the faults again in the other direction.
+func c15LargeHistory(h *c15Hist) {
+	e := h.e
+	h.enumSync = false
+	pageCache := c15PageCacheBytes(e)
+	const blobSize = 4000
+	nU := 600
+	if need := int(pageCache*3/2/blobSize) + 1; need > nU {
+		nU = need
+	}
+	if verifThorough() {
+		nU *= 3
+	}
+	if nU > 40000 {
+		nU = 40000
+	}
+	nS := 20
+	// profiles 7 (old) and 8 (new) of this history's pool
+	oldP, newP := c15BigProfile("vol-old", blobSize, 0xa5), c15BigProfile("vol-new", blobSize+300, 0x5a)
+	pool := append(append([]*userProfile{}, h.pool...), oldP, newP)
+	poolIdx := map[string]int{}
+	for k, v := range h.poolIdx {
+		poolIdx[k] = v
+	}
+	noOld, noNew := len(pool)-1, len(pool)
+	poolIdx[c15Hash(c15Canon(oldP))], poolIdx[c15Hash(c15Canon(newP))] = noOld, noNew
+	h.pool, h.poolIdx = pool, poolIdx
+	oldB, newB := c15Encode(oldP), c15Encode(newP)
+
+	h.bulkSave(0, nU, oldB, noOld)
+	for i := 0; i < nS; i++ {
+		h.upsertNamed(c15VolUser(i), c15VolUserBase+i, 1, 1+i%5, h.nowish()+86400)
+	}
+	if !h.syncLarge(c15LargePoint{"none", -1, verifFaultGeneric, false}) {
+		return
+	}
+	size := c15FileBytes(e.cacheFile)
+	threshold := pageCache * 5 / 4
+	if threshold < 2500000 {
+		threshold = 2500000
+	}
+	e.res.Extra["large_cache_file_bytes"] = size
+	e.res.Extra["large_cache_users"] = nU
+	e.res.Extra["page_cache_bytes"] = pageCache
+	e.res.eval(fmt.Sprintf("large-cache|users=%d|exceeds-page-cache=%v", nU, size > threshold), size > threshold)
+	if size <= threshold && nU < 40000 {
+		e.t.Fatalf("the large history does not exceed the page cache: cache file %d bytes, page cache %d bytes", size, pageCache)
+	}
+	round := func(blob []byte, poolNo int, delFrom, addFrom int) bool {
+		// every profile changes, 30 users go, 30 come, signed records change
+		h.bulkSave(0, nU, blob, poolNo)
+		for i := delFrom; i < delFrom+30; i++ {
+			err := e.st.DeleteUserProfile(c15VolUser(i))
+			h.record(fmt.Sprintf("(DelUser %d%%N)", c15VolUserBase+i), errOut(err))
+		}
+		h.bulkSave(addFrom, addFrom+30, blob, poolNo)
+		for i := 0; i < nS; i += 2 {
+			h.upsertNamed(c15VolUser(i), c15VolUserBase+i, 1, 1+(i+poolNo)%5, h.nowish()+2*86400)
+		}
+		prim := e.snapP()
+		live := 0
+		for _, r := range prim.signed {
+			if r.exp > h.now {
+				live++
+			}
+		}
+		for _, pt := range c15LargePoints(len(prim.profiles), live, verifThorough()) {
+			if len(e.res.Hits) > 150 {
+				break
+			}
+			if !h.syncLarge(pt) {
+				return false
+			}
+		}
+		return h.syncLarge(c15LargePoint{"none", -1, verifFaultGeneric, false})
+	}
+	if !round(newB, noNew, 100, nU) {
+		return
+	}
+	if verifThorough() {
+		round(oldB, noOld, 200, nU+30)
+	}
 }
